@@ -5,7 +5,7 @@ DIFF_FIELDS = ["eng_vs_model", "eng_vs_prom", "prom_vs_spec", "other", "crash", 
 COMMON_TB = [
     "Go harness (in-memory storage.Queryable, generators, comparison with relative tolerance 1e-9, +0/-0 identified)",
     "Prometheus v0.40.1 parser, PreprocessExpr and reference engine as libraries",
-    "Lean model files Basic/Val/Expr/Kernels/Sem/Run/Eng/Plan/Ops (hand-written, tied by correspondence)",
+    "Lean model files Basic/Val/Expr/Kernels/Sem/Run/Eng/Plan/Ops/Iter/Table/Acc/Coalesce/Dist/Hints/Slices/Pool/Remote/Streams (hand-written, tied by correspondence: differential on whole queries, kernel-level on the real iterators, accumulators, join tables, coalesce, remote operator and operator trees, plan shape for the optimizers)",
 ]
 RULE = ("cases from the structured generator profile(s) named in streams (type-directed queries, data laid out around "
         "the evaluation grid with boundary samples, gaps, staleness markers, NaN/Inf); a case is non-trivial when the "
